@@ -11,9 +11,11 @@ import (
 	"net/http"
 	"os"
 	"path/filepath"
+	"runtime"
 	"sort"
 	"strconv"
 	"strings"
+	"sync"
 	"syscall"
 	"time"
 
@@ -396,6 +398,180 @@ func c07Eval(f []string) (string, []string) {
 	return strings.Join(steps, "|"), tl
 }
 
+// ---- c07.storm: reload storms under concurrent clients (exploration of real schedules) ----
+//
+//   c07.storm  kinds  reloads  requests
+//
+// The GENERATOR runs the storm against the real code and records it as the case: one instance serving address 1 (and
+// sometimes 2), `clients` goroutines making GET requests to address 1, each on a fresh connection, while a sequence of
+// reloads runs (valid configurations and ones failing at setup or at listen time; every one of them keeps address 1).
+// Time is a shared logical clock (one tick per recorded event).
+//   reloads  = call:ret:gen:ok, …          requests = start:stop:answer, …   (answer = generation read from the body, - = failed)
+// Eval only summarises the recorded trace (`reloads=<ok>/<all>;requests=<answered>/<all>`); the property is evaluated by the
+// Lean judge on the trace.  A storm is one schedule the scheduler and the kernel happened to produce: exploration, not proof.
+
+type c07Tick struct {
+	mu sync.Mutex
+	n  int
+}
+
+func (t *c07Tick) next() int { t.mu.Lock(); t.n++; n := t.n; t.mu.Unlock(); return n }
+
+func c07Request(port int) (answer string) {
+	conn, err := net.DialTimeout("tcp", fmt.Sprintf("127.0.0.1:%d", port), c07Patience)
+	if err != nil {
+		return "-"
+	}
+	defer conn.Close()
+	conn.SetDeadline(time.Now().Add(c07Patience))
+	if _, err := conn.Write([]byte("GET / HTTP/1.1\r\nHost: 127.0.0.1\r\nConnection: close\r\n\r\n")); err != nil {
+		return "-"
+	}
+	resp, err := http.ReadResponse(bufio.NewReader(conn), nil)
+	if err != nil {
+		return "-"
+	}
+	defer resp.Body.Close()
+	b, err := io.ReadAll(io.LimitReader(resp.Body, 64))
+	if err != nil || resp.StatusCode != 200 {
+		return "-"
+	}
+	if _, err := strconv.Atoi(strings.TrimSpace(string(b))); err != nil {
+		return "-"
+	}
+	return strings.TrimSpace(string(b))
+}
+
+func c07Storm(rng *hx.Rng, nReloads, clients int) (kinds, reloads, requests string) {
+	casket.Stop()
+	casket.VerifC08ResetInstances()
+	var p [4]int
+	p[1], p[2], p[3] = c07FreePort(), c07FreePort(), c07.p3
+	k0, _ := c07ParseKind("1")
+	if _, err := casket.Start(c07Input(k0, 1, p)); err != nil {
+		return "start-failed", "", ""
+	}
+	clock := &c07Tick{}
+	var mu sync.Mutex
+	var reqs []string
+	stop := make(chan struct{})
+	var wg sync.WaitGroup
+	for c := 0; c < clients; c++ {
+		wg.Add(1)
+		go func() {
+			defer wg.Done()
+			for {
+				select {
+				case <-stop:
+					return
+				default:
+				}
+				t0 := clock.next()
+				a := c07Request(p[1])
+				t1 := clock.next()
+				mu.Lock()
+				reqs = append(reqs, fmt.Sprintf("%d:%d:%s", t0, t1, a))
+				mu.Unlock()
+			}
+		}()
+	}
+	pool := []string{"1", "12", "1", "12", "1x", "13", "12x", "123"}
+	var ks, rs []string
+	for i := 0; i < nReloads; i++ {
+		kind := hx.Pick(rng, pool)
+		k, _ := c07ParseKind(kind)
+		gen := i + 2
+		in := c07Input(k, gen, p)
+		insts := casket.Instances()
+		if len(insts) == 0 {
+			break
+		}
+		t0 := clock.next()
+		_, err := insts[0].Restart(in)
+		t1 := clock.next()
+		okS := "1"
+		if err != nil {
+			okS = "0"
+		}
+		ks = append(ks, kind)
+		rs = append(rs, fmt.Sprintf("%d:%d:%d:%s", t0, t1, gen, okS))
+		if d := rng.Intn(4); d > 0 {
+			time.Sleep(time.Duration(d) * 300 * time.Microsecond)
+		}
+	}
+	// a few more requests after the last reload returned
+	time.Sleep(2 * time.Millisecond)
+	close(stop)
+	wg.Wait()
+	casket.Stop()
+	casket.VerifC08ResetInstances()
+	return strings.Join(ks, ","), strings.Join(rs, ","), strings.Join(reqs, ",")
+}
+
+func c07StormGen(g *hx.Gen) {
+	storms, nReloads := 6, 12
+	if g.Thorough() {
+		storms, nReloads = 40, 50
+	}
+	for s := 0; s < storms; s++ {
+		clients := 2 + g.Rng.Intn(7)
+		if g.Thorough() {
+			procs := []int{1, 4, 16}[s%3]
+			old := runtime.GOMAXPROCS(procs)
+			ks, rs, qs := c07Storm(g.Rng, nReloads, clients)
+			runtime.GOMAXPROCS(old)
+			g.Case(ks, rs, qs)
+			continue
+		}
+		ks, rs, qs := c07Storm(g.Rng, nReloads, clients)
+		g.Case(ks, rs, qs)
+	}
+	g.Case("", "", "")
+}
+
+func c07StormEval(f []string) (string, []string) {
+	if len(f) != 3 {
+		return "bad-case", nil
+	}
+	okR, allR, okQ, allQ := 0, 0, 0, 0
+	if f[1] != "" {
+		for _, r := range strings.Split(f[1], ",") {
+			p := strings.Split(r, ":")
+			if len(p) != 4 {
+				return "bad-case", nil
+			}
+			allR++
+			if p[3] == "1" {
+				okR++
+			}
+		}
+	}
+	if f[2] != "" {
+		for _, q := range strings.Split(f[2], ",") {
+			p := strings.Split(q, ":")
+			if len(p) != 3 {
+				return "bad-case", nil
+			}
+			allQ++
+			if p[2] != "-" {
+				okQ++
+			}
+		}
+	}
+	tags := []string{fmt.Sprintf("reloads=%d", allR)}
+	if allQ == 0 {
+		tags = append(tags, "trivial-no-requests")
+	} else if allQ > 100 {
+		tags = append(tags, "requests>100")
+	} else {
+		tags = append(tags, "requests<=100")
+	}
+	if okR < allR {
+		tags = append(tags, "with-failed-reloads")
+	}
+	return fmt.Sprintf("reloads=%d/%d;requests=%d/%d", okR, allR, okQ, allQ), tags
+}
+
 var c07Kinds = []string{"1", "12", "2", "21", "1x", "12x", "13", "123", "3"}
 
 func c07Gen(g *hx.Gen) {
@@ -442,4 +618,5 @@ func c07Gen(g *hx.Gen) {
 
 func init() {
 	hx.Register(&hx.Stream{ID: "C07", Name: "c07.handover", Gen: c07Gen, Eval: c07Eval, Serial: true, Setup: c07Setup, Teardown: c07Teardown})
+	hx.Register(&hx.Stream{ID: "C07", Name: "c07.storm", Gen: c07StormGen, Eval: c07StormEval, Serial: true, Setup: c07Setup, Teardown: c07Teardown})
 }
